@@ -783,3 +783,108 @@ def probe_purity(spec):
     o['params_changed'] = _params_changed(portf.assets, snap)
     o['prices_changed'] = [[list(k), kk] for k, (used, ref0) in prices_used.items() for kk in used if not np.array_equal(used[kk], ref0[kk])]
     return o
+
+
+# ------------------------------------------------------------------ C11: JSON round trip
+def _special_objects():
+    """asset types the spec DSL does not generate"""
+    n, g, h = Node('N'), Node('G'), Node('H')
+    out = {}
+    out['Plant'] = lambda: Plant(name='pl', nodes=[Node('N'), Node('G')], min_cap=1., max_cap=5., fuel_efficiency=0.5, start_costs=1.0, ramp=2.0, min_runtime=2, price='p0',
+                                 start_fuel=0.25, consumption_if_on=0.125, running_costs=0.5)
+    out['CHPAsset'] = lambda: CHPAsset(name='chp', nodes=[Node('N'), Node('H'), Node('G')], min_cap=1., max_cap=5., fuel_efficiency=0.5,
+                                      conversion_factor_power_heat=0.25, max_share_heat=0.5, start_costs=2.0, min_downtime=2, time_already_off=1, price='p0')
+    out['CHPAsset_with_min_load_costs'] = lambda: CHPAsset_with_min_load_costs(name='chp2', nodes=[Node('N'), Node('H')], min_cap=1., max_cap=5., min_load_threshhold=2., min_load_costs=1., price='p0')
+    def linked():
+        a1 = SimpleContract(name='a1', nodes=Node('N'), min_cap=0, max_cap=3, price='p0')
+        a2 = Storage(name='a2', nodes=Node('N'), size=2, cap_in=1, cap_out=1)
+        return LinkedAsset(name='li', nodes=[Node('N')], portfolio=Portfolio([a1, a2]), asset1_variable=(a1, 'disp', Node('N')),
+                           asset2_variable=(a2, 'disp', Node('N')), asset2_time_already_running='time_already_running')
+    out['LinkedAsset'] = linked
+    return out
+
+
+def _same_json(a, b):
+    return json.loads(a) == json.loads(b)
+
+
+def probe_json(spec):
+    import json as _json
+    from eaopack.serialization import to_json, load_from_json
+    o = {'status': 'ok', 'objects': []}
+    g = spec['grid']
+    g2 = spec['opts'].get('grid2') or g
+    objs = []
+    try:
+        if spec['opts'].get('special'):
+            objs.append((spec['opts']['special'], _special_objects()[spec['opts']['special']]))
+        else:
+            def whole():
+                pf = mk_portfolio(spec)
+                pf.set_timegrid(mk_grid(g))
+                return pf
+            objs.append(('Portfolio', whole))
+            tz = g.get('tz')
+            for a in spec['assets']:
+                objs.append((a['kind'] + ':' + a['name'], (lambda a=a: mk_asset(a, {}, tz))))
+    except Exception as e:
+        return {'status': 'setup_error', 'error': repr(e)[:300]}
+
+    def problem(obj, grid):
+        tg = mk_grid(grid)
+        T = tg.T
+        pr = {k: np.asarray(v, float) if len(v) == T else np.resize(np.asarray(v, float), T) for k, v in mk_prices(spec).items()}
+        pr.setdefault('p0', np.arange(T) * 0.5 + 1.0)
+        return dump_problem(obj.setup_optim_problem(pr, tg))
+
+    for label, make in objs:
+        r = {'label': label}
+        try:
+            obj = make()
+        except Exception as e:
+            r['construct_error'] = repr(e)[:200]
+            o['objects'].append(r)
+            continue
+        for phase in ('new', 'after set-up'):
+            ph = {}
+            try:
+                if phase == 'after set-up':
+                    try:
+                        problem(obj, g)          # computed attributes now exist on the object
+                    except Exception as e:
+                        ph['skipped'] = 'set-up of the original raises ' + type(e).__name__
+                        r[phase] = ph
+                        continue
+                s1 = to_json(obj)
+                ph['saved'] = True
+                obj2 = load_from_json(s1)
+                ph['loaded'] = True
+                s2 = to_json(obj2)
+                ph['resave_equal'] = bool(_json.loads(s1) == _json.loads(s2))
+                if label == 'Portfolio':
+                    t1, t2 = obj.timegrid, getattr(obj2, 'timegrid', None)
+                    ph['grid_equal'] = bool(t2 is not None and len(t1.timepoints) == len(t2.timepoints) and all(x == y for x, y in zip(t1.timepoints, t2.timepoints))
+                                            and str(t1.tz) == str(t2.tz) and t1.main_time_unit == t2.main_time_unit and list(t1.dt) == list(t2.dt))
+                    def own(x):
+                        try:
+                            return dump_problem(x.setup_optim_problem(mk_prices(spec)))
+                        except Exception as e:
+                            return 'error: ' + type(e).__name__
+                    ph['own_grid_problem_equal'] = bool(own(obj) == own(obj2))
+                for gi, grid in enumerate((g, g2)):
+                    try:
+                        p1 = problem(make() if phase == 'new' else obj, grid)
+                    except Exception as e:
+                        p1 = 'error: ' + type(e).__name__
+                    try:
+                        p2 = problem(obj2, grid)
+                    except Exception as e:
+                        p2 = 'error: ' + type(e).__name__
+                    ph['problem_equal_%d' % gi] = bool(p1 == p2)
+                    if p1 != p2:
+                        ph['problem_diff_%d' % gi] = [k for k in ('c', 'l', 'u', 'b', 'cType', 'rows', 'mapping') if isinstance(p1, dict) and isinstance(p2, dict) and p1[k] != p2[k]] or [str(p1)[:80], str(p2)[:80]]
+            except Exception as e:
+                ph['error'] = type(e).__name__ + ': ' + str(e)[:200]
+            r[phase] = ph
+        o['objects'].append(r)
+    return o
